@@ -70,6 +70,7 @@ func FormatDocumentWithOptions(journal *ast.Journal, content string, commodityFo
 			for j := range tx.Postings {
 				postingLines[tx.Postings[j].Range.Start.Line-1] = true
 			}
+
 			txEdits := formatTransactionWithOpts(tx, mapper, commodityFormats, globalAccountCol, opts)
 			edits = append(edits, txEdits...)
 		}
@@ -419,11 +420,14 @@ func formatAmountQuantity(amount *ast.Amount, commodityFormats map[string]Number
 	if commodityFormats != nil {
 		// First try specific commodity format
 		if format, ok := commodityFormats[amount.Commodity.Symbol]; ok {
-			return formatWithoutLoss(amount.Quantity, format)
-		}
-		// Then try default format (stored under empty key)
-		if format, ok := commodityFormats[""]; ok {
-			return formatWithoutLoss(amount.Quantity, format)
+			if s := formatWithoutLoss(amount.Quantity, format); !readsAsGroupMark(s) {
+				return s
+			}
+		} else if format, ok := commodityFormats[""]; ok {
+			// Then try default format (stored under empty key)
+			if s := formatWithoutLoss(amount.Quantity, format); !readsAsGroupMark(s) {
+				return s
+			}
 		}
 	}
 	if amount.RawQuantity != "" {
@@ -441,4 +445,28 @@ func formatWithoutLoss(qty decimal.Decimal, format NumberFormat) string {
 		format.DecimalPlaces = places
 	}
 	return FormatNumber(qty, format)
+}
+
+// readsAsGroupMark reports whether a formatted number would be read back as a
+// different quantity: the journal parser takes a lone point or comma followed by
+// exactly three digits (after a non-zero integer part) for a digit group mark, so
+// "5,000" written for five with three decimals would come back as five thousand.
+// Such an amount is left as it was written.
+func readsAsGroupMark(s string) bool {
+	mark := -1
+	for i := 0; i < len(s); i++ {
+		switch s[i] {
+		case '.', ',':
+			if mark >= 0 {
+				return false
+			}
+			mark = i
+		case ' ':
+			return false
+		}
+	}
+	if mark < 0 || len(s)-mark-1 != 3 {
+		return false
+	}
+	return strings.ContainsAny(s[:mark], "123456789")
 }
